@@ -6,6 +6,8 @@ processIncomingPacket resets the framer") first reads a garbage chunk, then K = 
 "no more than two frames" of valid traffic lost), each delivery is the frame's own message, and after every valid
 frame the backlog is at most garbage + one frame.
 twoperread.*: the same with two valid frames per read.
+sizebound.rtu.<dir>.fc<k>: the length the RTU receiver waits for, as announced by ANY header bytes, is bounded by one
+maximum-size frame (the backlog bound at its source).
 handler.<framing>.<kind>: the same question put to the REAL serial-style handler loop (its own exception rule), with
 garbage kinds that make the decoder raise: lone delimiters ('{}'), a checksum-valid frame without a PDU, one with a bare
 function code.
@@ -222,6 +224,37 @@ def make_handler(framing, kind, G):
     return handler
 
 
+def make_sizebound(direction, fc):
+    """backlog bound at its source: whatever 12 bytes follow a unit id and this function code, the length the RTU
+    receiver decides to wait for is at most one maximum-size RTU frame plus the fixed fields in front of a byte count
+    (byte count <= 255 at position <= 10, + 2 CRC bytes: 268). A larger announced size means one corrupted header can
+    swallow more than the property's two maximum-size frames of valid traffic."""
+    def sizebound(g: bytes) -> bool:
+        from pymodbus.factory import ServerDecoder, ClientDecoder
+        assume(len(g) == 13)
+        assume(g[1] == fc)
+        dec = ServerDecoder() if direction == "req" else ClientDecoder()
+        cls = dec.lookupPduClass(fc)
+        try:
+            n = cls.calculateRtuFrameSize(g)
+        except Exception:
+            return True            # no size can be determined: the receiver's exception rule resets (resync.* / handler.*)
+        if not (0 <= n <= 268):
+            explain("%s announces an RTU frame of %r bytes", cls.__name__, n)
+            return False
+        return True
+    return sizebound
+
+
+def fifo_size_formula(g: bytes) -> bool:
+    """the FIFO response's RTU length is its 16-bit byte count + 6 (unit, function code, the count field, CRC) -- exactly,
+    for every header; the cap missing on top of it is the listed finding KF-rtu-announced-size-uncapped"""
+    from pymodbus.file_message import ReadFifoQueueResponse
+    assume(len(g) == 6)
+    n = ReadFifoQueueResponse.calculateRtuFrameSize(g)
+    return same(n, g[2] * 256 + g[3] + 6, "announced size")
+
+
 def _ascii_stuck(garbage):
     """region of KF-ascii-deaf-after-bad-frame: the garbage contains a ':' followed later by CR LF (a complete but
     unacceptable frame stays at the head of the buffer for ever)"""
@@ -269,6 +302,13 @@ def obligations(tier):
             plan.append((framing, "foreign", 4, None, 1, vk))
             if tier != "quick":
                 plan.append((framing, "badcheck", 6, None, 1, vk))
+    for direction in ("req", "rsp"):
+        for fc in ([1, 3, 6, 15, 16, 23, 20, 21, 24, 43, 0x83] if tier == "quick" else [1, 2, 3, 4, 5, 6, 7, 8, 11, 12, 15, 16, 17, 20, 21, 22, 23, 24, 43, 0x83, 0x55]):
+            out.append(Obl("sizebound.rtu.%s.fc%d" % (direction, fc), make_sizebound(direction, fc), timeout=T,
+                           whole_finding="KF-rtu-announced-size-uncapped" if (direction, fc) in (("rsp", 43), ("rsp", 24)) else None,
+                           bounds="RTU frame-size oracle of the %s class for function code %d on ANY 13 header bytes: announced size within 0..268" % (direction, fc)))
+    out.append(Obl("sizeformula.rtu.rsp.fc24", fifo_size_formula, timeout=T,
+                   bounds="ReadFifoQueueResponse.calculateRtuFrameSize on any 6 header bytes == 256*hi + lo + 6"))
     for framing, kind, G in (("binary", "delims", 2), ("binary", "nopdu", 0), ("ascii", "nopdu", 0), ("ascii", "fconly", 1), ("binary", "fconly", 1),
                              ("ascii", "delims", 3), ("rtu", "raw", 3), ("ascii", "raw", 5)):
         if tier == "quick" and (framing, kind) in (("ascii", "delims"), ("ascii", "raw"), ("rtu", "raw")):
